@@ -3,8 +3,8 @@
    a finite history of declarations satisfying [guard] (see Properties/C02.v). *)
 From Coq Require Import ZArith QArith Qabs List Bool.
 From QV Require Import Model.Num Model.Rounding Model.Quantity Model.Dim Model.Registry
-     Proofs.QuantityProofs Proofs.DimProofs Proofs.RegistryProofs Proofs.DirectoryProofs
-     Proofs.C02Proofs Proofs.C15Proofs.
+     Proofs.QuantityProofs Proofs.DimProofs Proofs.DimPush Proofs.RegistryProofs
+     Proofs.DirectoryProofs Proofs.DimInv Proofs.C02Proofs Proofs.C02Dim Proofs.C15Proofs.
 
 (* every reachable directory satisfies all invariants *)
 Theorem C15_every_reachable_directory_coherent : forall dm ds,
@@ -64,6 +64,14 @@ Theorem C15_ref_unit_of_derived : forall dm s id c r ru,
             nf_num (ru_nf ru) == 1.
 Proof. exact ref_unit_of_derived. Qed.
 Print Assumptions C15_ref_unit_of_derived.
+
+(* the definition of every unit denotes the dimension of the type it was
+   created for ([udim]: exponent vector over base units -> over base types) *)
+Theorem C15_definition_denotes_type_dimension : forall dm s u c,
+  Reach dm s -> In u (st_units s) -> find_cls s (ru_cls u) = Some c ->
+  udim s (nf_dim (ru_nf u)) = rc_dim c.
+Proof. exact R_unit_dimension. Qed.
+Print Assumptions C15_definition_denotes_type_dimension.
 
 (* one type per dimension *)
 Theorem C15_one_class_per_dimension : forall dm s c1 c2,
